@@ -155,7 +155,7 @@ _load_c10()
 
 def plan(tier, seed):
     if tier == "quick":
-        return [{"n": 200} for _ in range(16)]
+        return [{"n": 600} for _ in range(16)]
     return [{"n": 6000} for _ in range(16)]
 
 
